@@ -2437,8 +2437,12 @@ class Discrimination(Output):
             I0 = np.where(obs == 0)[0]
             # Compute frequencies
             for i in range(len(edges) - 1):
-                y0[f, i] = np.mean((p[I0] >= edges[i]) & (p[I0] < edges[i + 1])) * 100
-                y1[f, i] = np.mean((p[I1] >= edges[i]) & (p[I1] < edges[i + 1])) * 100
+                q = (p >= edges[i]) & (p < edges[i + 1])
+                if i == len(edges) - 2:
+                    # The last bin includes its upper edge
+                    q = q | (p == edges[i + 1])
+                y0[f, i] = np.mean(q[I0]) * 100
+                y1[f, i] = np.mean(q[I1]) * 100
 
             # Figure out where to put the bars. Each file will have pairs of
             # bars, so try to space them nicely.
